@@ -809,6 +809,7 @@ class Interp:
             # closures passed as key= etc.
             return m(*args, **kwargs)
 
+        call.pyvc_method = (obj, name)
         return call
 
     def method_of(self, obj, fs):
